@@ -736,7 +736,7 @@ pub fn run(ctx: &Ctx) -> Result<Evidence, String> {
             }
         }
     });
-    let mut ev = Evidence::new("cases = (query, document) evaluated by the same generic engine at four Queryable types: serde_json::Value, DagJson (equal subtrees physically shared, PartialEq with a numeric tolerance), VecJson (objects as ordered vectors, Int/Float strictly separate accessors, Default != null, opaque Debug) and F64Json (all numbers f64, numeric PartialEq, Default = \"\"); paths must be identical and values deep-equal (numbers by value). Families: the C01 selector pool and random queries x small/curated/random documents, the C04 comparison universe (all ordered pairs x operators x literal kinds), the C10 function sweep. A VecJson view with reversed member order is compared with the reference evaluator run over that view. Non-trivial = distinct (query, document) with a non-empty result.");
+    let mut ev = Evidence::new("cases = (query, document) evaluated by the same generic engine at four Queryable types: serde_json::Value, DagJson (equal subtrees physically shared, PartialEq with a numeric tolerance), VecJson (120-byte nodes; objects as ordered vectors, Int/Float strictly separate accessors, Default != null, opaque Debug) and F64Json (all numbers f64, numeric PartialEq, Default = \"\"); paths must be identical and values deep-equal (numbers by value). Families: the C01 selector pool and random queries x small/curated/random documents, the C04 comparison universe (all ordered pairs x operators x literal kinds), the C10 function sweep. A VecJson view with reversed member order is compared with the reference evaluator run over that view. Non-trivial = distinct (query, document) with a non-empty result.");
     ev.set("exhaustive", json!(false));
     ev.set("implementations", json!(["serde_json::Value", "VecJson", "F64Json", "DagJson", "VecJson (reversed member order)"]));
     ev.assume("two further faithful Queryable implementations stand for 'all implementations'; their get() honours the documented key contract (enclosing quotes stripped)");
